@@ -721,7 +721,12 @@ pub fn gen_for(suite: &str, tier: &str, rng: &mut Rng, emit: &mut dyn FnMut(Stri
             for i in 0..scale(2_000, 40_000) {
                 let e = if i % 3 == 0 { rng.pick(&special).to_string() } else { gen_expr::expr(rng, &cfg) };
                 let ee = enc(&e);
-                let ctx = if e.contains("PH") { format!("ph={},{},{}", lo - 1, lo, hi - 1) } else { gen_ctx(rng, &e, false) };
+                let mut ctx = if e.contains("PH") { format!("ph={},{},{}", lo - 1, lo, hi - 1) } else { gen_ctx(rng, &e, false) };
+                // the window clauses hold for every context: a third of the lines carry an interval-size bound
+                if rng.chance(1, 3) {
+                    let b = *rng.pick(&[1i64, 2, 7, 30, 366, 3650]) * 86_400_000_000_000 + *rng.pick(&[0i64, 0, 43_200_000_000_000, 1]);
+                    ctx = if ctx == "-" { format!("b={b}") } else { format!("{ctx};b={b}") };
+                }
                 let day = match rng.below(8) {
                     0 => lo + rng.range(-400, 3),
                     1 => hi + rng.range(-3, 400),
@@ -739,7 +744,7 @@ pub fn gen_for(suite: &str, tier: &str, rng: &mut Rng, emit: &mut dyn FnMut(Stri
                 }
                 emit(format!("c08.state {t} {ctx} {ee}"));
                 // next_change from before 1900 walks until something opens: only with a cheap first probe
-                let probe = format!("c08.iter {t} {} {ctx} {ee}", add_ns(&t, 86_400_000_000_000 * rng.range(1, 900)).unwrap_or_else(|| t.clone()));
+                let probe = format!("c08.iter {t} {} {ctx} {ee}", add_ns(&t, 86_400_000_000_000 * rng.range(1, if ctx.contains("b=") { 4000 } else { 900 })).unwrap_or_else(|| t.clone()));
                 emit(probe);
                 let l = format!("c08.next {t} {ctx} {ee}");
                 if answers_within(&l, 20) {
@@ -842,7 +847,10 @@ pub fn gen_for(suite: &str, tier: &str, rng: &mut Rng, emit: &mut dyn FnMut(Stri
                 let b = *rng.pick(&["0", "1", "86400000000000", "31536000000000000", "4611686018427387903", "9223372036854775807", "max", "min", "-1", "-86400000000000", "-172800000000000", "-9223372036854775807"]);
                 let t = gen_instant(rng);
                 emit(format!("c04.bstate {t} {b} {} {}", gen_ctx(rng, &e, false), enc(&e)));
-                emit(format!("c04.bnext {t} {b} 40 {} {}", gen_ctx(rng, &e, false), enc(&e)));
+                // next_change with a huge bound walks like the unbounded one: only small and negative bounds here
+                if !["4611686018427387903", "9223372036854775807", "max", "31536000000000000"].contains(&b) {
+                    emit(format!("c04.bnext {t} {b} 40 {} {}", gen_ctx(rng, &e, false), enc(&e)));
+                }
                 if let Some(to) = add_ns(&t, 86_400_000_000_000 * 20) {
                     emit(format!("c04.biter {t} {to} {b} {} {}", gen_ctx(rng, &e, false), enc(&e)));
                 }
